@@ -14,6 +14,7 @@ variable of `jax.random.split(...)` goes to the new state).  Fail-closed."""
 import ast
 from fractions import Fraction
 from translate import Ctx, Unsupported, dotted, find_def
+from lib.vfun import A_vfun, A_vloop_body
 
 CP = 'fedjax/aggregators/compression.py'
 
@@ -127,10 +128,185 @@ def A_clip_constant(coqname):
   return emit
 
 
+KEYED = {'uniform_stochastic_quantize_pytree': ('quant', 2), 'terngrad_quantize_pytree': ('quant', 1),
+         'walsh_hadamard.structured_rotation_pytree': ('rot', 1),
+         'walsh_hadamard.inverse_structured_rotation_pytree': ('inv', 1)}
+
+
+def A_keys(qual, coqname):
+  """PRNG plumbing of one aggregator's apply(): which split index goes to the next state,
+  which key seeds the per-client hk.PRNGSequence, and which key every keyed call inside
+  quantize_params_and_weight receives.  Keys are paths (list nat) of jax.random.split indices
+  relative to the state key `s`."""
+  def emit(tree):
+    ap = _apply_of(tree, qual)
+    env, seqs, zips = {'aggregator_state.rng': 's'}, {}, {}
+    client_seq = None
+    handled = set()
+
+    def path(e):
+      d = dotted(e)
+      if d not in env:
+        raise Unsupported(f'{qual}: key expression {d} is not a known key')
+      return env[d]
+    for s in ap.body:
+      if isinstance(s, ast.Assign) and len(s.targets) == 1:
+        t, v = s.targets[0], s.value
+        if isinstance(v, ast.Call):
+          f = None
+          try:
+            f = dotted(v.func)
+          except Unsupported:
+            pass
+          if f == 'jax.random.split':
+            if not (isinstance(t, ast.Tuple) and len(t.elts) == 2 and all(isinstance(x, ast.Name) for x in t.elts)
+                    and len(v.args) == 1 and not v.keywords):
+              raise Unsupported(f'{qual}: jax.random.split not of the form `a, b = jax.random.split(k)`')
+            src = path(v.args[0])
+            env[t.elts[0].id] = f'({src} ++ [0%nat])'
+            env[t.elts[1].id] = f'({src} ++ [1%nat])'
+            handled.add(id(s))
+          elif f == 'hk.PRNGSequence':
+            if not (isinstance(t, ast.Name) and len(v.args) == 1 and not v.keywords):
+              raise Unsupported(f'{qual}: hk.PRNGSequence form')
+            seqs[t.id] = path(v.args[0])
+            handled.add(id(s))
+          elif f == 'zip' and isinstance(t, ast.Name) and len(v.args) == 2 and isinstance(v.args[1], ast.Name) \
+              and v.args[1].id in seqs:
+            if not (isinstance(v.args[0], ast.Name) and v.args[0].id == 'clients_params_and_weights'):
+              raise Unsupported(f'{qual}: zip of something other than clients_params_and_weights')
+            zips[t.id] = seqs[v.args[1].id]
+            handled.add(id(s))
+          elif f == 'itertools.starmap' and len(v.args) == 2 and isinstance(v.args[0], ast.Name) \
+              and v.args[0].id == 'quantize_params_and_weight' and isinstance(v.args[1], ast.Name) and v.args[1].id in zips:
+            if client_seq is not None:
+              raise Unsupported(f'{qual}: quantize_params_and_weight mapped twice')
+            client_seq = zips[v.args[1].id]
+            handled.add(id(s))
+    if client_seq is None:
+      raise Unsupported(f'{qual}: no itertools.starmap(quantize_params_and_weight, zip(clients_params_and_weights, hk.PRNGSequence(k)))')
+    # no other statement may bind a key name
+    keynames = {k for k in env if '.' not in k} | set(seqs)
+    for n in ast.walk(ap):
+      if isinstance(n, ast.FunctionDef) and n is not ap:
+        continue
+    def binders(stmts):
+      for s in stmts:
+        if isinstance(s, ast.FunctionDef):
+          continue
+        if id(s) not in handled:
+          for n in ast.walk(s):
+            if isinstance(n, ast.Name) and isinstance(n.ctx, ast.Store) and n.id in keynames:
+              raise Unsupported(f'{qual}: key variable {n.id} is bound by an unrecognised statement')
+        for fld in ('body', 'orelse'):
+          sub = getattr(s, fld, None)
+          if isinstance(sub, list) and not isinstance(s, ast.FunctionDef) and id(s) not in handled:
+            pass
+    binders(ap.body)
+    qd = [n for n in ap.body if isinstance(n, ast.FunctionDef) and n.name == 'quantize_params_and_weight']
+    if len(qd) != 1 or [a.arg for a in qd[0].args.args][:1] != ['client_params_and_weight'] or len(qd[0].args.args) != 2:
+      raise Unsupported(f'{qual}: quantize_params_and_weight(client_params_and_weight, key) not found')
+    kname = qd[0].args.args[1].arg
+    for n in ast.walk(qd[0]):
+      if isinstance(n, ast.Name) and isinstance(n.ctx, ast.Store) and (n.id == kname or n.id in keynames):
+        raise Unsupported(f'{qual}: quantize_params_and_weight rebinds a key variable')
+    found = {}
+    for n in ast.walk(qd[0]):
+      if isinstance(n, ast.Call):
+        try:
+          f = dotted(n.func)
+        except Unsupported:
+          continue
+        if f in KEYED:
+          role, pos = KEYED[f]
+          if n.keywords or len(n.args) <= pos or not isinstance(n.args[pos], ast.Name):
+            raise Unsupported(f'{qual}: key argument of {f}')
+          k = n.args[pos].id
+          term = 'client' if k == kname else env.get(k)
+          if term is None:
+            raise Unsupported(f'{qual}: {f} receives unknown key {k}')
+          if role in found:
+            raise Unsupported(f'{qual}: two {role} calls')
+          found[role] = term
+        elif 'random' in f or f.endswith('PRNGSequence'):
+          raise Unsupported(f'{qual}: unexpected PRNG call {f} inside quantize_params_and_weight')
+    if ('rot' in found) != ('inv' in found) or not found:
+      raise Unsupported(f'{qual}: keyed calls found: {sorted(found)}')
+    ns = [s.value for s in ap.body if isinstance(s, ast.Assign) and len(s.targets) == 1 and
+          isinstance(s.targets[0], ast.Name) and s.targets[0].id == 'new_state']
+    if len(ns) != 1 or not (isinstance(ns[0], ast.Call) and len(ns[0].args) == 2 and isinstance(ns[0].args[1], ast.Name)
+                            and ns[0].args[1].id in env):
+      raise Unsupported(f'{qual}: new_state key')
+    out = [f'Definition {coqname}_next_state (s : list nat) : list nat := {env[ns[0].args[1].id]}.',
+           f'Definition {coqname}_client_key (s : list nat) (c : nat) : list nat := seq_key {client_seq} c.']
+    for role in ('quant', 'rot', 'inv'):
+      if role in found:
+        body = f'{coqname}_client_key s c' if found[role] == 'client' else found[role]
+        out.append(f'Definition {coqname}_{role}_key (s : list nat) (c : nat) : list nat := {body}.')
+    return '\n'.join(out)
+  return emit
+
+
+def A_leaf_keys(qual, coqname, inner, keypos):
+  """A *_pytree function: rngs = jax.random.split(rng, len(leaves)); for (l, r, ..) in zip(leaves, rngs, ..):
+  inner(.., r, ..) -- leaf number l gets split index l of the function's key."""
+  def emit(tree):
+    fd = find_def(tree, qual)
+    rn = [s.value for s in fd.body if isinstance(s, ast.Assign) and len(s.targets) == 1 and
+          isinstance(s.targets[0], ast.Name) and s.targets[0].id == 'rngs']
+    ok = (len(rn) == 1 and isinstance(rn[0], ast.Call) and dotted(rn[0].func) == 'jax.random.split' and
+          len(rn[0].args) == 2 and not rn[0].keywords and isinstance(rn[0].args[0], ast.Name) and rn[0].args[0].id == 'rng'
+          and isinstance(rn[0].args[1], ast.Call) and dotted(rn[0].args[1].func) == 'len' and
+          isinstance(rn[0].args[1].args[0], ast.Name) and rn[0].args[1].args[0].id == 'leaves')
+    if not ok:
+      raise Unsupported(f'{qual}: rngs is not jax.random.split(rng, len(leaves))')
+    loops = [s for s in fd.body if isinstance(s, ast.For)]
+    if len(loops) != 1:
+      raise Unsupported(f'{qual}: expected one loop')
+    lp = loops[0]
+    it = lp.iter
+    ok = (isinstance(it, ast.Call) and dotted(it.func) == 'zip' and len(it.args) >= 2 and
+          all(isinstance(a, ast.Name) for a in it.args) and it.args[0].id == 'leaves' and it.args[1].id == 'rngs' and
+          isinstance(lp.target, ast.Tuple) and len(lp.target.elts) == len(it.args) and
+          all(isinstance(x, ast.Name) for x in lp.target.elts))
+    if not ok:
+      raise Unsupported(f'{qual}: loop is not `for l, r, .. in zip(leaves, rngs, ..)`')
+    lname, rname = lp.target.elts[0].id, lp.target.elts[1].id
+    calls = [n for n in ast.walk(lp) if isinstance(n, ast.Call) and
+             ((isinstance(n.func, ast.Name) and n.func.id == inner))]
+    if len(calls) != 1 or calls[0].keywords or len(calls[0].args) <= keypos:
+      raise Unsupported(f'{qual}: expected one call of {inner}')
+    c = calls[0]
+    if not (isinstance(c.args[0], ast.Name) and c.args[0].id == lname and isinstance(c.args[keypos], ast.Name)
+            and c.args[keypos].id == rname):
+      raise Unsupported(f'{qual}: {inner} is not called with (leaf, .., its own key, ..)')
+    for n in ast.walk(fd):
+      if isinstance(n, ast.Name) and isinstance(n.ctx, ast.Store) and n.id in ('rng',) :
+        raise Unsupported(f'{qual}: rng rebound')
+    return f'Definition {coqname}_leaf_key (k : list nat) (l : nat) : list nat := k ++ [l].'
+  return emit
+
+
 MODULES = {
     'Gen_compression': {
         'src': CP,
+        'preamble': 'From Coq Require Import QArith.\nFrom FV Require Import Common.CMonoid Common.NanQ Common.NanVec Common.KeyPath.\nLocal Open Scope Z_scope.\n',
         'items': [
+            A_vfun('binary_stochastic_quantize', 'gen_bsq', ['v', 'rng', 'v_min', 'v_max'],
+                   [('v', 'V'), ('rng', 'U'), ('v_min', 'optQ'), ('v_max', 'optQ')]),
+            A_vfun('uniform_stochastic_quantize', 'gen_usq', ['v', 'num_levels', 'rng', 'v_min', 'v_max'],
+                   [('v', 'V'), ('num_levels', 'Q'), ('rng', 'U'), ('v_min', 'optQ'), ('v_max', 'optQ')]),
+            lambda tree: 'Section tern.\n(* jnp.std is not modelled (sqrt): a parameter *)\nVariable std : list NanQ.t -> NanQ.t.',
+            A_vfun('terngrad_quantize', 'gen_tern', ['v', 'rng'], [('v', 'V'), ('rng', 'U')],
+                   calls={'binary_stochastic_quantize': ('gen_bsq {0} {1} (Some {2}) (Some {3})', ['V', 'U', 'Q', 'Q'], 'V')}),
+            lambda tree: 'End tern.',
+            A_vloop_body('drive_pytree', 'gen_drive_leaf', 'leaf', 'V', 'new_leaves'),
+            A_keys('uniform_stochastic_quantizer', 'usq_agg'),
+            A_keys('rotated_uniform_stochastic_quantizer', 'rusq_agg'),
+            A_keys('structured_drive_quantizer', 'drive_agg'),
+            A_keys('terngrad_quantizer', 'tern_agg'),
+            A_leaf_keys('uniform_stochastic_quantize_pytree', 'usq_pytree', 'uniform_stochastic_quantize', 2),
+            A_leaf_keys('terngrad_quantize_pytree', 'tern_pytree', 'terngrad_quantize', 1),
             A_bits('uniform_stochastic_quantizer', 'usq'),
             A_bits('rotated_uniform_stochastic_quantizer', 'rusq'),
             A_bits('structured_drive_quantizer', 'drive'),
